@@ -14,7 +14,7 @@ import (
 func init() {
 	Register(&PropDef{
 		ID: "C11", QuickRuns: 1600, RaceRuns: 480, Level: "exploration", Race: true,
-		Rule: "one run = 2-8 associations on one datapath (BESS or UP4, drawn) working in rounds: in every round each association sends one valid request for one of its own sessions - establishment (UE address given or UP-allocated, F-TEID given or CHOOSE, 0-2 QERs, first PDR pair match-all or carrying one of three application filters shared by the whole run, downlink FAR towards one of three gNBs shared by the whole run), FAR update (new tunnel / buffer / drop; on UP4 only those that stay off the listed findings), other modifications inside the supported envelope (BESS), deletion - all at the same instant or with drawn pacing (0-200 us); the UE pool is large or so small (/28, /29) that a released address is handed out again at once (establishments whose acceptance then depends on the order within the round may be refused); in one round in three the only user of an application filter and gNB is deleted by its association while another association establishes the next user of the same filter and gNB; datapath RPC latency jitter 0-2 ms and occasional slow writes (1.5 / 5 ms) let the writes of two handlers overtake each other; the agent's one-goroutine-per-association handlers, the per-rule goroutines of the BESS plug-in and the heartbeat monitors are interleaved by the token scheduler at statement level (run-to-block / random / PCT, scheduling points before socket writes). One run in eight is the directed late-completion scenario: association A's establishment has one BESS call slower than the plug-in's 1 s wait, association B's establishment is aimed at the instant that wait ends (join timer, context deadline and B's datagram at one instant), RPC latencies differ by up to 2 ms, the daemon does not apply a call cancelled before it got to it; A's session is deleted and B's accepted session must be installed completely. One round in eight is sent one request at a time (serial control: a rejection there is a generator matter, counted, not a finding). Oracles: (a) every request is answered once, and - concurrent rounds - accepted, as in every one-at-a-time ordering of these order-independent requests; (b) at the quiescent point after each round the datapath (simulated BESS modules / P4Runtime switch) equals the reference image of the union of all live sessions (C03 / C04 oracle, incl. tunnel_peers / applications 'present iff used'), id bijections hold (C15 oracle); (c) after a final concurrent deletion of everything: tables empty, UE pool and TEID generator empty, UP4 id pools back to their start sizes and bookkeeping maps empty (white-box bridge), session store empty, gauge 0; (d) no agent task panics, the agent stays alive; (e) race build: the same scenarios run under the race detector; token hand-over between tasks happens inside runtime.RaceDisable sections and therefore creates no happens-before edge, so two agent goroutines touching a plain map / slice / field without a lock of their own are reported although only one of them runs at a time; reports whose both accesses are agent code (not harness probes) are violations, signature = the two accessing functions.",
+		Rule: "one run = 2-8 associations on one datapath (BESS or UP4, drawn) working in rounds: in every round each association sends one valid request for one of its own sessions - establishment (UE address given or UP-allocated, F-TEID given or CHOOSE, 0-2 QERs, first PDR pair match-all or carrying one of three application filters shared by the whole run, downlink FAR towards one of three gNBs shared by the whole run), FAR update (new tunnel / buffer / drop; on UP4 only those that stay off the listed findings), other modifications inside the supported envelope (BESS), deletion - all at the same instant or with drawn pacing (0-200 us, or up to 3 ms); the UE pool is large or so small (/28, /29) that a released address is handed out again at once (establishments whose acceptance then depends on the order within the round may be refused); in one round in three the only user of an application filter and gNB is deleted by its association while another association establishes the next user of the same filter and gNB; datapath RPC latency jitter 0-2 ms and occasional slow writes (1.5 / 5 ms) let the writes of two handlers overtake each other; the agent's one-goroutine-per-association handlers, the per-rule goroutines of the BESS plug-in and the heartbeat monitors are interleaved by the token scheduler at statement level (run-to-block / random / PCT, scheduling points before socket writes). One run in eight is the directed late-completion scenario: association A's establishment has one BESS call slower than the plug-in's 1 s wait, association B's establishment is aimed at the instant that wait ends (join timer, context deadline and B's datagram at one instant), RPC latencies differ by up to 2 ms, the daemon does not apply a call cancelled before it got to it; A's session is deleted and B's accepted session must be installed completely. One round in eight is sent one request at a time (serial control: a rejection there is a generator matter, counted, not a finding). Oracles: (a) every request is answered once, and - concurrent rounds - accepted, as in every one-at-a-time ordering of these order-independent requests; (b) at the quiescent point after each round the datapath (simulated BESS modules / P4Runtime switch) equals the reference image of the union of all live sessions (C03 / C04 oracle, incl. tunnel_peers / applications 'present iff used'), id bijections hold (C15 oracle); (c) after a final concurrent deletion of everything: tables empty, UE pool and TEID generator empty, UP4 id pools back to their start sizes and bookkeeping maps empty (white-box bridge), session store empty, gauge 0; (d) no agent task panics, the agent stays alive; (e) race build: the same scenarios run under the race detector; token hand-over between tasks happens inside runtime.RaceDisable sections and therefore creates no happens-before edge, so two agent goroutines touching a plain map / slice / field without a lock of their own are reported although only one of them runs at a time; reports whose both accesses are agent code (not harness probes) are violations, signature = the two accessing functions.",
 		Assume: []string{"requests of different associations are order-independent by construction (distinct UE addresses / TEIDs, pools larger than the load), so 'some one-at-a-time ordering' fixes each response's cause and the final image uniquely",
 			"race reports with a harness probe (bridge file, simulator goroutine) on either side are artefacts of reading white-box state at quiescence and are dropped (counted)"},
 		Real: CommonReal, Simulated: CommonSim,
@@ -31,6 +31,9 @@ type c11Pend struct {
 	tag  string
 	pool      bool // establishment that asks the UPF for a UE address
 	mayReject bool // acceptance depends on the order within the round (pool nearly exhausted)
+	// aimAtWrite: (UP4) not sent with the others but at the moment the switch
+	// receives a Write whose summary contains this text, which then takes 3 ms
+	aimAtWrite string
 }
 
 // delAllocPlanned counts the deletions already planned for this round whose session holds a pool address.
@@ -293,15 +296,37 @@ func scenarioC11(r *Run) {
 				waitAll([]*c11Pend{pe})
 			}
 		} else {
-			pace := r.Ch.Choose(3, "pacing")
+			pace := r.Ch.Choose(4, "pacing")
 			for _, pe := range pends {
 				off := time.Duration(0)
 				if pace == 1 {
 					off = time.Duration(r.Ch.Choose(200, "pace-us")) * time.Microsecond
 				} else if pace == 2 {
 					off = time.Duration(r.Ch.Choose(4, "pace-ns")) * time.Nanosecond
+				} else if pace == 3 {
+					// a request arrives while another handler is several datapath writes into its own
+					off = time.Duration(r.Ch.Choose(3000, "pace-us-wide")) * time.Microsecond
 				}
 				pe := pe
+				if pe.aimAtWrite != "" {
+					sent := false
+					r.W.P4.OnWrite = func(sum string) time.Duration {
+						if sent || !strings.Contains(sum, pe.aimAtWrite) {
+							return 0
+						}
+						sent = true
+						r.Sim.After(0, func() { pe.p.SendMsg(pe.msg) })
+						r.Probe("request-aimed-at-a-write-in-flight")
+						return 3 * time.Millisecond
+					}
+					r.Sim.After(20*time.Millisecond, func() {
+						if !sent {
+							sent = true
+							pe.p.SendMsg(pe.msg)
+						}
+					})
+					continue
+				}
 				if off == 0 {
 					pe.p.SendMsg(pe.msg)
 				} else {
@@ -309,6 +334,7 @@ func scenarioC11(r *Run) {
 				}
 			}
 			waitAll(pends)
+			r.W.P4.OnWrite = nil
 			r.Probe("concurrent-rounds")
 		}
 		mode := "concurrent"
@@ -417,7 +443,13 @@ func scenarioC11(r *Run) {
 					if old, nf := c.s.FAR(2), ns.FAR(2); old != nil && nf != nil && old.HasOHC && nf.HasOHC {
 						nf.PeerIP = old.PeerIP
 					}
-					pends = append(pends, &c11Pend{p: b, kind: "est", s: ns, msg: b.EstablishMsg(ns), tag: fmt.Sprintf("q%d", len(ns.QERs))})
+					taker := &c11Pend{p: b, kind: "est", s: ns, msg: b.EstablishMsg(ns), tag: fmt.Sprintf("q%d", len(ns.QERs))}
+					if up4 && r.Ch.Choose(2, "aim-at-the-release") == 1 {
+						// the next user's request leaves when the switch receives the Write that
+						// deletes the shared applications entry (that Write is a slow one)
+						taker.aimAtWrite = fmt.Sprintf("DEL:T%d", r.W.P4.ID(tApps))
+					}
+					pends = append(pends, taker)
 					planned[c.s.Peer], planned[b] = true, true
 					r.Probe("shared-object-handed-over-between-associations")
 				}
